@@ -10,381 +10,11 @@ COMMON_TRUSTED = [
 PROPS = {}
 NOT_CLAIMED = {}
 
-PROPS["C11"] = dict(
-    level_text="Theorems (Props/C11.lean) prove for every shard count, msb_ignore<64 and i64 token that the u64 implementation equals ScyllaDB's stated algorithm and is < nr_shards; for every shard and port range that the drawable/iterable ports are exactly the ports of the range congruent to the shard (each once, any pivot/index), and that None/empty is produced iff no such port exists. The model is tied to sharding.rs by a differential run (exhaustive corner sweep + boundary/random cases) with a brute-force oracle.",
-    level_note="Trusted: Lean kernel + {propext, Classical.choice, Quot.sound}; hand-written model Model/Sharding.lean (tie = differential harness through cfg(scylla_verif) pass-throughs); RNG choices are explicit model arguments (membership check). msb_ignore >= 64 (malformed SUPPORTED) is outside the property's domain.",
-    lean_modules=["ScyllaVerif.Props.C11"],
-    rule="case = (operation, shard count, msb/shard, token or port range); distinct case lines whose implementation output is not `none`/`-`/`0` count as non-trivial",
-    trivial=lambda c, o: o in ("none", "-", "0"),
-    trusted=[
-        "Model/Sharding.lean transcribes sharding.rs:121-237, 85-103, 274-308; u128 product modelled on Nat (product_fits_u128)",
-        "rand::rng() index/pivot are explicit arguments of the model; correspondence for draw/iter is membership (model checks the observed output is producible by some random choice)",
-    ],
-    assumptions=[
-        "msb_ignore < 64 for shardOfImpl_eq_spec (the value range ScyllaDB sends); shard < nr_shards and hi <= 65535 (u16) for the port theorems - both enforced by the Rust types/asserts",
-    ],
-    partial=[],
-)
 
-PROPS["C03"] = dict(
-    level_text="Theorems (Props/C03.lean) prove, for every list of chunks (empty and 1-byte chunks included), that the driver's buffered three-phase Murmur3 `write`/`finish` returns exactly the one-shot Cassandra MurmurHash3_x64_128 (signed tail bytes) token of the concatenation, normalised MIN->MAX (never i64::MIN); that for every permutation of bind markers the partition key is extracted in partition-key order (`(extract (pkIndexesOfWire wire) values)[seq] = values[wire[seq]]`, non-key markers skipped); that the token is murmur3Spec of the single component / of the composite encoding be16 len ++ bytes ++ 0 (and equals the CDC token under the CDC partitioner); that a composite component of >= 65536 bytes is rejected; and chunking independence of the CDC hasher. The models are tied to partitioner.rs / prepared.rs / result.rs by a differential run with model-independent oracles (chunked = one-shot, != i64::MIN, independent Cassandra reference, real-cluster vectors).",
-    level_note="Trusted: Lean kernel + {propext, Classical.choice, Quot.sound}; hand-written models Model/Murmur3.lean, Model/PartitionKey.lean (tie = differential harness: public hashers, forged PREPARED frames through deser_prepared_metadata, PreparedStatement::calculate_token/compute_partition_key via the cfg(scylla_verif) pass-through statement_from_prepared). Fidelity of murmur3Spec to Cassandra's Java is by transliteration + the four server-derived vectors (no server in the sandbox).",
-    lean_modules=["ScyllaVerif.Props.C03"],
-    rule="case = (operation, bytes, chunking) or (partitioner, pk wire order, bound values); distinct case lines whose implementation output carries a token or an error kind count as non-trivial",
-    trivial=lambda c, o: o in ("-", "bad-case"),
-    out_kind=lambda o: ("token-err" if " tok=err" in o else "token-panic" if "tok=panic" in o else "token-none" if "tok=none" in o else "token-ok") if o.startswith("pk=") else (o.split(" ", 1)[0] if o and not (o[0].isdigit() or o[0] == "-") else "value"),
-    trusted=[
-        "Model/Murmur3.lean transcribes partitioner.rs:145-313 (Wrapping<i64> on UInt64: same bit patterns, right shifts are on `as u64`), 316-381 (CDC), routing/mod.rs:38-43 (Token::new)",
-        "Model/PartitionKey.lean transcribes prepared.rs:782-860, 348-360, result.rs:976-984 (sort_unstable_by_key modelled by a stable sort; equal marker indexes are checked up to the order of equal keys), partitioner.rs:396-423",
-        "murmur3Spec = Cassandra's MurmurHash.hash3_x64_128 one-shot form by transliteration, validated by the four (string, token) vectors obtained from a real cluster (partitioner.rs tests) - `example ... := by decide +kernel` in Props/C03.lean and `vector` cases in every run",
-        "u16 arithmetic in PartitionKey::new is modelled with overflow checks on (as the harness is built): repeated marker indexes (never sent by a server) panic there, wrap in a release build",
-    ],
-    assumptions=[
-        "extract_in_pk_order / token_formula: the marker indexes of the PREPARED frame are distinct and below the number of bound values (<= 65535), every key component is bound to a value (null/unset key components are skipped by the code; the server rejects such requests)",
-        "bound_values.element_count() = col_specs.len() (enforced by serialize_values)",
-    ],
-    partial=[],
-    chunk=3000,
-)
+# One file per property: tools/props.d/Cxx.py, each assigning PROPS["Cxx"] = dict(...).
+import glob as _glob
+import os as _os
 
-PROPS["C09"] = dict(
-    level_text="Theorems (Props/C09.lean) prove for the Lean model of the request encoder (QUERY, PREPARE, EXECUTE with/without result-metadata id, BATCH, STARTUP, REGISTER, OPTIONS, AUTH_RESPONSE; every subset of the optional fields; any value list with null/unset; any batch shape): frame_valid (version 4, flags = compression|tracing bits, spec opcode, u32 length = payload size), parse_encode (an independent parser written from the CQL v4 spec reads the emitted frame back to exactly the request: text/id, consistency, serial consistency, page size, paging state, timestamp, skip-metadata, values in order, batch statements in order with their values), compressed_body (payload decompresses to the uncompressed body, from the hypothesis decompress(compress b)=b), oversize_refused + representable_accepted (the encoder succeeds exactly on requests that fit a v4 frame: statements < 2^31 B, ids/strings < 2^16 B, <= 65535 values/statements, one value list per statement; otherwise an error, never truncation). Opcodes, flag bits, consistency/batch codes are re-extracted from the Rust source on every run (tools/extract_tables.py) and proved equal to the protocol literals. The model is tied to scylla-cql by a differential run through the public API with an independent Rust-side spec parser as oracle.",
-    level_note="Trusted: Lean kernel + {propext, Classical.choice, Quot.sound}; hand-written model Model/Request.lean + Model/WirePrim.lean (tie = byte-exact differential run against SerializedRequest::make through the public API, plus a model-independent protocol parser in harness/src/c09.rs as oracle); the regex extractor tools/extract_tables.py (fails closed). LZ4/Snappy block codecs are parameters of the model (assumed to invert; checked on every compressed case by decompressing with the same crates). Bodies >= 4 GiB ((len-9) as u32 cast) are outside the theorems' hypothesis and cannot be built here. STARTUP map order is an explicit argument (checker mode: any permutation).",
-    lean_modules=["ScyllaVerif.Props.C09"],
-    tables=True,
-    rule="case = (request kind, compression, tracing, stream id, fields...); distinct case lines whose implementation output is a frame (`ok ...`) or an error kind count as non-trivial",
-    trivial=lambda c, o: o in ("bad-case",),
-    out_kind=lambda o: " ".join(w for w in o.split(" ")[:4] if not (len(w) > 24 or w.lstrip("-").isdigit())) if o.startswith("err") else o.split(" ", 1)[0],
-    trusted=[
-        "Model/Request.lean transcribes frame/mod.rs:70-112, 273-323, request/query.rs:49-56, 120-176, execute.rs:74-90, batch.rs:63-159, 195-213, prepare.rs, startup.rs, register.rs, auth_response.rs, options.rs, serialize/row.rs:594-615 (add_value), writers.rs:104-131; Model/WirePrim.lean transcribes frame/types.rs write_* (checked u16 / i32 length conversions)",
-        "Model/ReqParse.lean is the specification side: a parser of CQL v4 request frames written from native_protocol_v4.spec (+ ScyllaDB's result-metadata-id extension of EXECUTE) with literal constants; it imports nothing from the encoder model",
-        "tools/extract_tables.py copies request/response opcodes, frame/QUERY/BATCH flag bits, consistency, batch type and kind codes, null/unset markers, event names and the header layout of SerializedRequest::make from the Rust text into Generated/Constants.lean on every run (regex-based, fails closed)",
-        "LZ4 / Snappy block codecs (lz4_flex, snap) are parameters of the model; the driver instantiates them with the block the implementation produced (header, flags, length field, LZ4 length prefix and the decompressed body are still compared); HashMap iteration order of STARTUP is read off the implementation's frame and must be a permutation of the requested entries",
-        "SerializedValues are built in the harness with add_value on blob-typed cells (null = None, unset = MaybeUnset::Unset); 2^31-byte inputs (`biglen` cases) are lazily mapped zero pages and only the model's length guard is run on them",
-    ],
-    assumptions=[
-        "frame_valid / parse_encode / compressed_body: payload below 2^32 bytes (the `(len - 9) as u32` cast; frame_length_field_is_cast states the unconditional modulo form) and, for LZ4, uncompressed body below 2^32 bytes",
-        "compressed_body: unlz4 (lz4 b) |b| = b and snappy b = c -> unsnappy c = b (explicit hypotheses, not axioms)",
-        "page size is an i32, timestamps i64, stream id i16 (the Rust types)",
-    ],
-    partial=[
-        "Batch::do_serialize's per-statement TooManyValues branch (> 65535 values written by one RawBatchValues row) is modelled but not exercised by the harness: with Vec<SerializedValues> the count is capped earlier by add_value; the RawBatchValuesAdapter path of the scylla crate is not driven",
-        "session-level capture of frames through the mock node (timestamps / page sizes chosen by the session layer) is not part of this check; the frame layer is driven directly through SerializedRequest::make",
-        "accepted inputs just below 2^31 bytes are not executed (they would copy 2 GiB); only the refusal at 2^31 is",
-    ],
-    chunk=800,
-)
-
-PROPS["C16"] = dict(
-    level_text="Theorems (Props/C16.lean) about a generic interpreter of the code the derive macros generate, for EVERY struct descriptor (any number of fields, any attribute combination passing the macro's name-collision check), every database field list and every value assignment: by-name UDT serialization writes each bound field's value at its column's database position, nulls (or nothing, at the end) elsewhere (serValueByName_position / _unmatched_null); it succeeds exactly when every listed column is acceptable (value fits the type; excess column iff not forbid_excess_udt_fields) and every field without allow_missing/skip has a column (serValueByName_accepts_iff, _excess), a missing required field is always an error wherever it is declared - the F7 shape included (serValueByName_missing_required); acceptance and the cell at each column's position do not depend on the database order (serValueByName_perm_accepts / _perm_cells, tcValueByName_perm); the by-name UDT type check accepts exactly: acceptable columns, no bound field listed twice, required fields listed (tcValueByName_accepts_iff); by-name UDT deserialization fills each field from the like-named column (skip / missing allow_missing -> default, null with default_when_null -> default) (deserValueByName_spec); value -> cells -> value is the identity in any database order (byname_roundtrip); by-name row serialization is characterised exactly, cells position by position (serRowByName_iff); the ordered UDT flavor accepts only subsequences of the declared names in declared order containing every required field, excess only at the end and only without forbid (svOrdered_sound, dvTcOrd_sound, dvTcOrd_declared). The interpreter is tied to scylla-macros by a differential run of 50 structs compiled with the real derive macros (descriptor and struct generated from ONE table) over all permutations of up to 6 columns, every subset missing, excess / duplicated / retyped columns at every position, null patterns, truncated cell lists, with a model-independent oracle (value at its column's position, round trip, documented accept/reject rule, missing required field never dropped, declared order for the ordered flavor).",
-    level_note="Trusted: Lean kernel + {propext, Classical.choice, Quot.sound}; hand-written interpreter Model/Derive.lean (tie = differential harness on the fixed family; macro expansion itself is not modelled). Field values are abstract payloads (typed encoding is C01). Proved for the UDT derives and by-name SerializeRow; DeserializeRow, ordered rows, skip_name_checks and flatten are tied and oracle-checked differentially only (see partial).",
-    lean_modules=["ScyllaVerif.Props.C16"],
-    rule="case = (trait, struct descriptor, database column list, values or cells); distinct case lines count as non-trivial unless the output is bad-case",
-    trivial=lambda c, o: o.startswith("bad-case"),
-    out_kind=lambda o: " ".join(o.split(" ")[:3]) if o.startswith("err") else o.split(" ", 1)[0],
-    trusted=[
-        "Model/Derive.lean transcribes serialize/value.rs:261-553, serialize/row.rs:203-472, _macro_internal.rs:141-310, deserialize/value.rs:226-898, deserialize/row.rs:175-670 as an interpreter over a struct descriptor; loops are structural recursions returning the cells written from the current column on; `saved_cql_field` + iterator are one list",
-        "value level kept abstract: i32 = 4-byte payload, String = ASCII bytes (UTF-8 validation not modelled), Option None = null (typed encodings: C01)",
-        "the derive macros' compile-time validation (name collisions, skip_name_checks restrictions) is represented by the hypothesis ValidNames; the family table and descriptor strings come from the same macro_rules tokens (harness/src/c16_structs.rs)",
-    ],
-    assumptions=[
-        "ValidNames: non-skipped fields have pairwise distinct database names (enforced by the macros at compile time)",
-        "byname_roundtrip: database names distinct, column types equal the like-named fields' types, values well-typed (None only for Option, i32 payload 4 bytes)",
-    ],
-    partial=[
-        "DeserializeRow (by name and ordered), ordered SerializeRow, skip_name_checks and #[scylla(flatten)] are modelled (Model/Derive.lean: tcRow*/deRow*/srOrdered/serRowByNameN/serRowOrderedN) and checked differentially + by the harness oracle, but have no theorem yet",
-        "ordered flavor: soundness (only declared-order subsequences are accepted) and acceptance of the declared order are proved; the full iff with the greedy allow_missing rule and the ordered deserialize walk are differential only",
-        "error KIND exactness is proved for the missing-required-field case; for other rejections the theorems state acceptance iff (the differential run compares kinds)",
-    ],
-    chunk=4000,
-)
-
-PROPS["C02"] = dict(
-    level_text="Theorems (Props/C02.lean) prove, for EVERY event sequence of the connection model (inductive invariant `Inv` over `step`, lifted to all runs) and the full 32768-id space: the bitmap allocator returns the least free id and fails iff all ids are used, `free` clears exactly one bit (bit level refines the abstract set); two unanswered requests never share a stream id (including after cancellation before enqueue / before write / after write / after the response); the reader's lookup for an answer the server owes finds exactly the handler of the request it answers (or the orphan mark) and never `Missing`; a frame on a stream the server does not owe never reaches a handler; any caller that completes with a frame holds the frame produced for its own request; the Rust assert in `allocate` cannot fire; exhaustion gives UnableToAllocStreamId and leaves the map unchanged. The model is tied to connection.rs by a differential run at hook level (ResponseHandlerMap op sequences: exhaustive over 3 request ids / 3 streams up to length 5, random, full 32768-id exhaustion) and end to end (the real router/reader/writer/orphaner over an in-memory stream, requests through the real send_request, under a deterministic schedule that covers all four cancellation points, out-of-order answers, unsolicited frames, blocked writes), each with a model-independent oracle.",
-    level_note="Trusted: Lean kernel + {propext, Classical.choice, Quot.sound}; hand-written models Model/StreamMap.lean, Model/Conn.lean (tie = differential harness through cfg(scylla_verif) hooks StreamMap / RawConnection). Each critical section of reader/writer/orphaner is one atomic model step (they run on one task and never hold the map lock across an await); tokio scheduling, socket buffering and memory-model effects are outside the model. The abstract server answers only stream ids it has received, at most once each.",
-    lean_modules=["ScyllaVerif.Props.C02"],
-    rule="case = one operation sequence (hook level `map`, or end-to-end schedule `conn`); distinct case lines whose implementation output contains at least one routed response (`H<req>` / `ok:`) count as non-trivial",
-    trivial=lambda c, o: not ("H" in o or "ok:" in o),
-    out_kind=lambda o: (("broken:" + o.rsplit("broken=", 1)[1]) if not o.endswith("broken=-") else ("conn-ok" if "ok:" in o else "conn-no-answer")) if "| srv=" in o else ("map-full" if "full" in o else ("map-routed" if "H" in o else "map-other")),
-    trusted=[
-        "Model/StreamMap.lean transcribes connection.rs:2296-2450 (HashMaps as association lists observed through get/erase/insert, orphan timestamps dropped); Model/Conn.lean transcribes connection.rs:136-223, 1541-1786 with each critical section of reader/writer/orphaner as one atomic step",
-        "abstract server: answers only stream ids it has received, at most once each; tokio mpsc/oneshot: FIFO, close-on-drop; the bounded submit channel is modelled by the `submitFull`/`enqueue` events",
-        "end-to-end schedules are deterministic (current-thread runtime, futures polled by the test, settle = 16 yields); the driver Drive/C02.lean maps each schedule operation to model events",
-    ],
-    assumptions=[
-        "the server does not answer a stream id before it has received the request frame carrying it (a frame on an id that is allocated but still in the writer's buffer is outside the property)",
-    ],
-    partial=[],
-    shrink=dict(head_words=1, sep=";"),
-    chunk=3000,
-)
-
-PROPS["C18"] = dict(
-    lean_modules=["ScyllaVerif.Props.C18"],
-    level_text="Theorems (Props/C18.lean) prove, for every interleaving of any number of threads running the load / compute_next / compare_exchange loop and for every clock behaviour (stalled, repeated, backwards, pre-epoch - the clock is an arbitrary input of each compute step), that the values installed by successful CASes are strictly increasing (hence pairwise distinct, and strictly increasing along each thread's own calls), and that an explicit statement timestamp is chosen in preference to the generator. Tied to timestamp_generator.rs by single-thread runs under a scripted clock compared value by value, and multi-thread runs validated as model traces (membership) plus a distinct/increasing oracle.",
-    level_note="Trusted: Lean kernel + standard axioms; hand-written model Model/Timestamp.lean; sequential consistency of the SeqCst AtomicI64 operations; values stay below 2^63 (last + 1 does not overflow; ~year 294000); the scripted clock hook (one shadowing line in compute_next, cfg(scylla_verif)). The statement-timestamp preference (connection.rs) is proved on the model and is tied to the code only by the mock-node run of C07/C14 when present.",
-    rule="case = (single-thread script, calls) or (threads x scripts, calls); distinct case lines count as non-trivial when the clock script makes at least one reading not exceed the previous timestamp (stall / backwards / pre-epoch), i.e. the output contains two consecutive values differing by exactly 1",
-    trivial=lambda c, o: not any(b - a == 1 for part in o.split("|") for a, b in zip([int(x) for x in part.split(",") if x.lstrip("-").isdigit()], [int(x) for x in part.split(",") if x.lstrip("-").isdigit()][1:])),
-    trusted=[
-        "Model/Timestamp.lean transcribes timestamp_generator.rs:96-157 (compute_next, next_timestamp CAS loop) and the `statement.get_timestamp().or_else(generator)` choice of connection.rs",
-        "sequential consistency of AtomicI64 SeqCst load / compare_exchange (each is one atomic step of the model)",
-        "verif_hooks::clock scripted clock (thread-local), which replaces only the SystemTime::now() reading",
-    ],
-    assumptions=["timestamps stay below i64::MAX (no overflow of last + 1)", "multi-thread correspondence is membership: the observed per-thread value lists must be producible by some interleaving of the model"],
-    partial=["explicit_timestamp_wins is proved on the model; its tie to connection.rs is by the mock-node end-to-end run (C07/C14 harness), not by the hook-level check"],
-    chunk=400,
-)
-
-
-def _c06_out_kind(o):
-    if o.startswith("A="):
-        w = o.split(" ")
-        n = 0 if w[0] == "A=-" else len(w[0].split(","))
-        r = w[2][2:]
-        r = "err:last" if r.startswith("err:last") else r.split(":")[0] if r.startswith(("ok", "ignored")) else r
-        return "fiber attempts=%d %s" % (n, r)
-    last = o.split(" ")[-1] if o else ""
-    return "dec last=" + last.split(":")[0]
-
-
-PROPS["C06"] = dict(
-    level_text="Theorems (Props/C06.lean) prove, for every plan (targets with or without a connection), every history of per-attempt outcomes of any length (every RequestAttemptError / DbError variant with arbitrary field values), the idempotence flag, the initial consistency and each of the three built-in retry policies: a request not marked idempotent gets attempt k+1 only if attempt k failed with unavailable / bootstrapping / no free stream id / read timeout (never after a broken connection, overloaded / server / truncate error or write timeout); the default policy makes at most one attempt at serial consistency; attempts <= plan length + 2 / 1 / 0 same-node retries (so the loop terminates: the model's fuel is proved never exhausted); the fiber sends exactly 1 + (number of retry decisions) attempts unless the plan ran out, on the target and at the consistency the decision named; fallthrough sends one attempt. The models are tied to retry/*.rs and execution.rs by a differential run (exhaustive decision tables over all reachable session states + the real run_request_no_side_effects over synthetic targets) with an oracle written from the property text.",
-    level_note="Trusted: Lean kernel + {propext, Classical.choice, Quot.sound}; hand-written models Model/Retry.lean, Model/Exec.lean (tie = differential harness through the cfg(scylla_verif) pass-throughs request_info / run_request). The transparent re-prepare inside one attempt is C14, speculative fibers are C13.",
-    lean_modules=["ScyllaVerif.Props.C06"],
-    rule="case = (dec: policy, idempotence, history of (consistency, error) fed to one retry session) or (run: policy, idempotence, initial consistency, plan, scripted outcomes) or (runx: the same under a scripted test retry policy); distinct case lines whose implementation output contains a retry/ignore decision or at least one attempt count as non-trivial",
-    trivial=lambda c, o: o in ("-", "bad-case") or o.startswith("A=- "),
-    out_kind=_c06_out_kind,
-    trusted=[
-        "Model/Retry.lean transcribes default.rs:57-170, downgrading_consistency.rs:54-214, fallthrough.rs:30-32 (i32 fields as Int: only compared, never computed with); Model/Exec.lean transcribes execution.rs:525-650 (one fiber; labelled continue/break as recursion on (rest of plan, same target))",
-        "the hook's synthetic targets either always or never yield a connection; a target whose pool breaks between two same-target attempts is outside the correspondence (the model treats it like the code: next target, nothing sent)",
-        "run_request_once is scripted: the k-th call returns the k-th scripted outcome; what an attempt does on the wire (incl. the re-prepare after UNPREPARED) is C14's subject",
-    ],
-    assumptions=[
-        "no speculative execution policy (single fiber); no client-side request timeout (the timeout only cuts a history short)",
-        "the retry policy is one of DefaultRetryPolicy, DowngradingConsistencyRetryPolicy, FallthroughRetryPolicy",
-    ],
-    partial=[
-        "DESIGN X(c) (thorough tier: the same histories injected end-to-end by the mock cluster, counting QUERY/EXECUTE/BATCH frames) is not built: the execution loop is tied at RequestExecutionParams::run_request_no_side_effects with a scripted run_request_once, so 'one run_request_once call = one request frame' is C14's/C09's subject, not re-checked here",
-    ],
-    explanation="dec cases: exhaustive decision tables (112 error classes with concrete boundary field values x idempotence x 11 consistencies x every session state reachable by flag-setting histories of length <= 3 (default) / <= 2 + sampled 3 (downgrading; all of length 3 in the thorough tier)) against the real RetrySession objects, plus random histories of length <= 7. run cases: the real run_request_no_side_effects over synthetic targets (plans of 0..5 targets incl. targets without a connection): exhaustive outcome sequences of length <= 2 (thorough 3) over a 14-letter alphabet on all plans of length <= 3, directed same-error-forever and flag-order histories, random histories of length <= plan + 3; the retry policy is wrapped in a recording policy, the oracle checks the property text on the attempt log (re-send of a non-idempotent request only after a proof error, default/serial <= 1 attempt, attempts <= plan + 2/1/0, attempts = 1 + retry decisions unless the plan ran out, target and consistency of every attempt as decided, session consulted with the right error/idempotence/consistency, one session). runx cases: the same loop under a scripted test RetryPolicy so that every decision arm is driven with every consistency (no built-in policy returns RetryNextTarget(Some)). A scratch-copy mutation self-test (24 seeded changes to default.rs / downgrading_consistency.rs / execution.rs) was detected 24/24 (20 by the oracle with a replayable case, 4 behaviour changes that do not violate the property text by the model diff).",
-    shrink=dict(head_words=3, sep=";"),
-    chunk=6000,
-)
-
-
-def _c15_out_kind(o):
-    if o.startswith("ok "):
-        return "payload ok" + (" (no replicas)" if o.endswith(":-") else "")
-    if o.startswith(("err ", "absent")):
-        return "payload " + o
-    if o and o[0].isdigit():
-        return "exh digest"
-    if "panic" in o:
-        return "tab with panic (ill-formed insert)"
-    return "tab" if ";" in o or o in ("n", "a") else o.split(" ", 1)[0]
-
-
-PROPS["C15"] = dict(
-    level_text="Theorems (Props/C15.lean) prove, for every history of inserts and maintenance steps of any length over unbounded tokens: the tablet list stays sorted with prev.last < next.first and first <= last (so the standard library's binary search - modelled loop by loop - is applied to a partitioned list: its precondition is a lemma, not an assumption); tablet_for_token answers exactly the latest insert covering the token unless a later insert overlapped it or maintenance discarded it (refinement to a history-based spec; never a stale answer); an insert removes exactly the overlapping tablets; per-datacenter replicas are the order-preserving filter of the full replica list; an accepted payload (a, b] becomes [a+1, b] with a < b and is rejected iff b <= a. The model is tied to tablets.rs by a differential run (exhaustive histories over a 6-token universe, long random histories over full i64, maintenance, TabletsInfo, payload bytes) with a brute-force history shadow as oracle.",
-    level_note="Trusted: Lean kernel + {propext, Classical.choice, Quot.sound}; hand-written model Model/Tablets.lean (tie = differential harness through the cfg(scylla_verif) pass-through VerifTablets / raw_tablet_from_payload); Arc<Node> identity modelled by a generation counter; HashMaps as association lists (only looked up by key, dumps sorted).",
-    lean_modules=["ScyllaVerif.Props.C15"],
-    rule="case = one history (tab), one payload cell (payload) or one exhaustive subtree (exh); distinct case lines whose implementation output contains at least one answered lookup / non-empty dump / accepted-or-rejected payload / visited history count as non-trivial",
-    trivial=lambda c, o: o in ("-", "bad-case", "absent") or (c.startswith("tab ") and ":" not in o),
-    out_kind=_c15_out_kind,
-    trusted=[
-        "Model/Tablets.lean transcribes tablets.rs:66-122 (payload), 135-169, 252-324, 369-469, 523-538, 598-662 and core::slice::binary_search_by/partition_point of the toolchain's std (1.95: fixed-iteration base/size loop)",
-        "Vec::drain(left..right) with left > right panics before mutating (only reachable with an ill-formed tablet first > last, which from_custom_payload never produces); the model's add returns `none` there and the driver prints `panic`",
-        "the node set / keyspace list handed to maintenance are explicit arguments (what ClusterState computes from old/new known_nodes is cluster/state.rs:375-405, outside this model)",
-    ],
-    assumptions=[
-        "every inserted tablet has first <= last (proved for everything from_custom_payload accepts: payload_range); tokens are unbounded integers in the theorems (the code compares i64 only, the +1 overflow is excluded by payload_range)",
-    ],
-    partial=[],
-    shrink=dict(head_words=1, sep=";"),
-    chunk=1500,
-)
-
-
-def _c13_out_kind(o):
-    if o in ("true", "false", "HANG", "PANIC", "bad-case"):
-        return o
-    w = o.split(" ")
-    if o.startswith("starts="):
-        n = w[0].count(",") + 1
-        res = w[2].split(":")[0].replace("res=", "")
-        return "spec started=%d %s" % (n, res)
-    if o.startswith("att="):
-        n = 0 if w[0] == "att=-" else w[0].count(",") + 1
-        res = w[1].split(":")[0].replace("res=", "")
-        return "gate attempts=%s %s %s" % (n if n < 4 else "4+", res, w[3])
-    return w[0]
-
-
-PROPS["C13"] = dict(
-    level_text="Theorems (Props/C13.lean) prove for EVERY schedule (any list of events timerFires / pop i / send i / attemptDone i / complete i outcome; impossible events are no-ops, ties between the timer and a completion are both orders) of the select!-loop state machine of speculative_execution::execute behind the idempotence gate of run_request_no_side_effects, for every policy and plan: a non-idempotent request (or one without a policy) has exactly one execution, at most one running fiber and at most one attempt on the wire at every point (nonidempotent_single_fiber); at most 1+max executions are started, never one after a fiber reported the plan exhausted (started_le, no_start_after_exhaustion); the shared plan hands every target out at most once, in plan order, so the attempts on the wire are on pairwise distinct targets (handed_is_plan_prefix, distinct_targets, outstanding_attempts_distinct); the returned value is the first consumed result that is a success or definitive error, otherwise the last error (EmptyPlan if none) and then only when nothing runs and nothing may be started, and conversely it has returned as soon as that holds (result_spec, first_real_answer_wins, otherwise_last_error, returns_when_exhausted); a not-yet-returned call always has a running fiber or an armed timer that will start one (never_waits_on_nothing - the all-branches-disabled state in which select! would panic and the useless-timer-only state are unreachable) and every fair infinite schedule returns after at most 4+3*max select! branches (always_returns, branches_bounded); can_be_ignored is stated outright over the whole error universe (canBeIgnored_err_iff). The model is tied to the code by a differential run in virtual time (tokio paused clock): the real execute over scripted fibers (exhaustive delay x outcome grids incl. ties, 1-5 fibers, max 0..4) and the real run_request_no_side_effects (gate + SharedPlan + real fibers, scripted retry policy) over synthetic targets, with a model-independent oracle.",
-    level_note="Trusted: Lean kernel + {propext, Classical.choice, Quot.sound}; hand-written model Model/Speculative.lean (tie = differential harness through the cfg(scylla_verif) pass-throughs speculative::execute / can_be_ignored / exec::run_request). Partial: futures::select!'s pseudo-random choice among ready branches is the model's tie nondeterminism (the model driver explores every order of simultaneous wake-ups and acts as a checker there); tokio's timer and FuturesUnordered are trusted to deliver wake-ups in virtual-time order; a fiber is abstract in the theorems (it pops targets, has at most one attempt outstanding, eventually completes - its retry logic is C06); Session-level glue (how is_idempotent and the policy reach RequestExecutionParams) and real sockets are not exercised (no mock-node end-to-end run).",
-    lean_modules=["ScyllaVerif.Props.C13"],
-    rule="case = one classification query (ign), one scripted schedule of synthetic executions through speculative_execution::execute (spec), or one scripted plan through run_request_no_side_effects (gate); every distinct case line counts (each returns a value, an error kind or HANG)",
-    trivial=lambda c, o: o in ("bad-case",),
-    out_kind=_c13_out_kind,
-    trusted=[
-        "Model/Speculative.lean transcribes speculative_execution.rs:108-155 (can_be_ignored), 165-218 (execute: retries_remaining, FuturesUnordered as the list `running`, the fused sleep as `sleepArmed`, last_error, the None branch, the return test), error.rs:451-488 (can_speculative_retry), execution.rs:71-86 (SharedPlan = one popped list), 417-484 (the gate; the single-fiber arm `.await.unwrap_or(Err(EmptyPlan))` is the same machine with retries 0 and no timer), 519-644 (a fiber seen from outside)",
-        "futures::select! polls the ready branches in pseudo-random order: at one virtual instant every order of the pending wake-ups (timer, fibers) is explored by Drive/C13.lean and the implementation's line must be one of the results (echo) - on tie-free schedules the comparison is exact (start time of every execution, consumption order, result, return time; for gate: every attempt (time, target), result, return time, max attempts in flight)",
-        "tokio::time (paused clock, ms granularity) and FuturesUnordered deliver wake-ups in deadline order; Fuse<Sleep> reports terminated after firing until re-set; FuturesUnordered::is_terminated is reset by push (the empty-async_tasks-while-retries-remain path is exercised by the corpus and the grids)",
-        "the harness's oracle uses its own hand-written ignorable/definitive table (from the property statement), independent of the Lean table; harness/src/c13.rs also carries a developer self-test (`mut<k>` cases, never generated) that runs a local copy of the loop with seeded bugs through the same oracle",
-    ],
-    assumptions=[
-        "always_returns: fairness = while the call has not returned, some enabled select! branch is eventually taken (each started fiber eventually completes, the armed timer eventually fires); some_branch_enabled shows such a branch exists in every reachable state; retry_interval is finite",
-        "distinct_targets / outstanding_attempts_distinct: the plan itself has no duplicates (C05)",
-    ],
-    partial=[
-        "tie resolution of futures::select! is nondeterministic: checked by membership, not equality, on schedules with simultaneous events",
-        "end-to-end (Session, pools, sockets, mock-node delays) not built: the gate is exercised through verif_hooks::exec::run_request (the real run_request_no_side_effects with synthetic targets)",
-    ],
-    shrink=dict(head_words=3, sep=" "),
-    chunk=6000,
-)
-
-PROPS["C08"] = dict(
-    level_text="Theorems (Props/C08.lean) about a total Lean model of the response decoders (primitive readers, frame header, body extensions, every response kind, result/prepared metadata, binary and custom-string column type parsers, raw rows): every decoder terminates with ok or err (no other outcome exists), requested allocation is proportional to the input, recursion depth is bounded, well-formed responses round-trip, truncated primitives are errors. The model is tied to the code by a differential run over well-formed frames of every kind, all their truncation points, field-aware mutations, deep nesting, custom type strings and random bytes, with a model-independent oracle (panic, hang watchdog, counting allocator, process death, well-formed frame decodes to what was encoded).",
-    level_note="Trusted: Lean kernel + {propext, Classical.choice, Quot.sound}; hand-written model (tie = differential harness on the public API of scylla-cql). LZ4/Snappy are external crates: the decompressed body is a parameter of the model (handed over by the harness). Typed column VALUE decoding is C01's model: here it is only driven for the crash/hang/allocation oracle. Not claimed: read_response_frame reserving the header-announced length (frames announcing > 1 MiB more than is present are not handed to it); custom type strings with non-ASCII characters are not modelled (implementation still run under the oracle).",
-    lean_modules=["ScyllaVerif.Props.C08"],
-    rule="case = (features, cached-metadata flag, negotiated compression, frame bytes) or (primitive reader, bytes); distinct case lines whose implementation output is not a header-level error count as non-trivial",
-    trivial=lambda c, o: o.startswith("err hdr."),
-    out_kind=lambda o: (lambda w: ("err " + ".".join(w[w.index("err") + 1].split(".")[:2]) if "err" in w else next((x for x in w if x.isupper() or x in ("ok",)), w[0] if w else "")))(o.split(" ")[:12]) if o else "",
-    chunk=2500,
-    trusted=[
-        "Model/ReadPrim.lean, TypeParser.lean, Response.lean, FrameHdr.lean transcribe scylla-cql(-core) frame/types.rs, frame/mod.rs, response/{mod,result,event,supported,authenticate,custom_type_parser}.rs, response/error.rs, deserialize/{result,row}.rs (raw cells only)",
-        "UTF-8 validation: Lean's ByteArray.validateUTF8 stands for str::from_utf8 (validated differentially on boundary strings); Uuid::try_parse modelled from the uuid crate's parser",
-        "LZ4/Snappy decompression is a parameter of the model (the harness hands the decompressed body over); only the size guard in front of LZ4 is modelled",
-    ],
-    assumptions=[
-        "frames whose header announces more than 1 MiB beyond the bytes present are not handed to read_response_frame (its up-front reservation is the driver's own TODO, outside C08)",
-        "rows of a result with zero columns are iterated up to 1000 (each costs no input byte; rows_count is only bounded by i32::MAX)",
-    ],
-    partial=[
-        "wellformed_roundtrip is proved for the primitives ([short], [int], [string], [bytes]/null) and the kinds READY, AUTHENTICATE, AUTH_CHALLENGE, AUTH_SUCCESS, RESULT/Void, RESULT/SetKeyspace (wellformed_roundtrip_partial); for ERROR, SUPPORTED, EVENT, RESULT/Rows, /Prepared, /SchemaChange it is checked per run by the harness oracle against an independent encoder, not proved",
-        "truncation_is_error is proved for [short], [int] and [string] (readString_truncation); for whole responses it is covered by the exhaustive truncation cases of the differential run",
-        "alloc ghost counts capacity REQUESTS (with_capacity / reserve) in element slots, not bytes copied while parsing (those are bounded by the bytes consumed)",
-    ],
-)
-
-PROPS["C01"] = dict(
-    level_text="Theorems (Props/C01.lean) prove, for every CQL type (natives, list/set/map, tuple, UDT, fixed- and variable-width vector, arbitrarily nested), every value and every output buffer, that the placeholder/back-patch serializer (encImpl) appends exactly the bytes of the CQL v4 definition length++content (encSpec) and fails with the same error kind; that null/unset/empty cells are ff ff ff ff / ff ff ff fe / 00 00 00 00; that content above i32::MAX bytes is SizeOverflow; that zig-zag + vint round-trip for every i64 and every continuation; the round trip decVal(encSpec v) = pad v on the decidable domain wfVal, encode totality on that domain (only SizeOverflow/TooManyElements can fail), and carrier_factor: every typed carrier's own serializer (scalars, Option, MaybeUnset, MaybeEmpty, Vec, sets, maps, tuples, CqlValue, nested) equals the dynamic serializer of its embedding. The model is tied to serialize/value.rs, writers.rs, deserialize/value.rs, frame_slice.rs, frame/types.rs by a differential run (dynamic CqlValue over all types, ~80 typed Rust carriers incl. chrono/time/num-bigint/bigdecimal/secrecy, malformed decoder input) with an oracle that is independent of the model (own protocol encoder + decode(encode v) == pad v).",
-    level_note="Trusted: Lean kernel + {propext, Classical.choice, Quot.sound}; hand-written models Model/Vint.lean, Model/Cql.lean, Model/Codec.lean (tie = differential harness on the public API of scylla-cql-core, no hook). UTF-8 validity is a parameter `u` of the decoder model (the driver uses Lean's ByteArray.validateUTF8). Three shapes on which the current tree violates the round trip are known findings C01-F1, C01-F2, C01-F9 (counterexample theorems + corpus witnesses); C01-F8 was repaired in /repo (808d80c) and is a regression case.",
-    lean_modules=["ScyllaVerif.Props.C01"],
-    rule="case = (kind dyn|carrier|carrierset|dec, CQL type, value or cell bytes); distinct case lines whose implementation output is not an error line count as non-trivial",
-    trivial=lambda c, o: o.startswith("err ") or o == "bad-case",
-    out_kind=lambda o: ("err-" + o.split(" ")[1]) if o.startswith("err ") else ("decode-" + o.split(" -> err ")[1] if " -> err " in o else ("roundtrip-ok" if " -> " in o else ("cell" if o[:1] in "0123456789abcdef" else o.split(" ")[0]))),
-    chunk=2500,
-    trusted=[
-        "Model/Codec.lean transcribes serialize/value.rs:93-706,750-1150, serialize/writers.rs:103-218, deserialize/value.rs:67-248,296-800,923-1593,1748-2092, deserialize/frame_slice.rs:151-195, frame/types.rs:174-218; Model/Vint.lean transcribes frame/types.rs:255-305",
-        "u64::leading_zeros modelled as 64 - bit length (Nat.log2); u8::leading_ones as a comparison chain proved equal to the bitwise count (leadingOnes8_spec)",
-        "error values are compared as kinds (innermost kind of the Rust error chain)",
-        "typed Rust carriers: Model/TypedCarrier.lean transcribes the typed SerializeValue impls (value.rs:93-621, 847-930) and carrier_factor reduces them to encImpl of the embedding; the harness rebuilds each Rust value from its embedding (harness/src/c01/carrier.rs) and compares bytes with the model and the typed decode with the original value",
-        "chrono/time/num-bigint/bigdecimal/secrecy carriers are differential-only (harness/src/c01/external.rs): their conversions to the core carriers are not modelled; value ranges are restricted to what the external types can represent",
-    ],
-    assumptions=[
-        "round trip domain wfVal: value has the shape of the type; text is UTF-8, ascii is ASCII; time in 0..=86399999999999; varint has at least one byte; tuple/UDT types have at least one field, vector dimension > 0 (no such CQL types exist otherwise); UDT type field names distinct and every value field named in the type",
-        "cells above i32::MAX bytes are covered by theorems only (not by the differential run)",
-    ],
-    partial=[
-        "roundtrip_partial / roundtrip_cell_partial: the full round-trip statement (every value with the shape of the type) is false of the current tree on three shapes, each with a proved counterexample theorem and a corpus witness replayed on the real code: C01-F1 zero-field tuple value for a non-empty tuple type (roundtrip_counterexample), C01-F2 null/unset element directly inside a vector (carrier_counterexample), C01-F9 `empty` element of a fixed-width vector (vector_empty_element_counterexample); wfVal excludes exactly these (and non-CQL degenerate types)",
-        "carrier_factor covers serialization; the typed DeserializeValue impls are not modelled in Lean (typed decode == original value is checked by the harness oracle on every carrier case)",
-        "cells above i32::MAX bytes: error branch proved (size_overflow_*, encode_total), not exercised by the differential run",
-    ],
-)
-
-PROPS["C19"] = dict(
-    level_text="Theorems (Props/C19.lean, invariant in Proofs/MergeChannel.lean) prove, for EVERY interleaving of the atomic steps of Sender::modify / Drop for Sender / Receiver::recv / cancellation of a suspended recv / Drop for Receiver (a transition system with one program counter per endpoint, so also for two OS threads under sequential consistency): received ++ in-flight ++ slot = merged (each merged update in exactly one received value, in order, none lost or duplicated; received values non-empty); a parked consumer with a pending value or a dropped sender has been notified AND its waker woken, or the producer's next step is that notify_one (no lost wake-up, cancel/restart included; a cancelled notified wait re-stores the permit); recv returns None only at a step where the sender is dropped, the slot is empty and everything merged was already returned; modify observing receiver_dropped returns SendError without applying f, and nothing is ever applied afterwards; every MetadataUpdate::merge_* keeps all refresh reply channels (list equality) and the newest topology wins. The models are tied to merge_channel.rs / update.rs by a differential run: the real channel polled manually with a counting waker over all legal poll-granularity interleavings to depth 8 (quick) / 10 (thorough) plus long random ones, UpdateSlot op sequences, and a 2-thread stress run, with a model-independent oracle.",
-    level_note="Trusted: Lean kernel + {propext, Classical.choice, Quot.sound}; hand-written models Model/MergeChannel.lean, Model/MetaUpdate.lean (tie = differential harness through the cfg(scylla_verif) pass-throughs verif_hooks::merge_channel); the tokio::sync::Notify contract N1-N5 written out in Model/MergeChannel.lean (validated at poll granularity by the differential run incl. wake counts, not verified); sequential consistency of the flag atomics / the slot mutex / Notify. The differential run cannot interleave INSIDE modify/recv; that is covered by the theorems only and sampled by the stress run.",
-    lean_modules=["ScyllaVerif.Props.C19"],
-    rule="case = (chan: sequence of producer/consumer operations at poll granularity | slot: sequence of merge_* / take operations | stress: n merges on a second OS thread); distinct case lines with at least one received value, pending poll, or non-empty take count as non-trivial",
-    trivial=lambda c, o: not ("ready[" in o or "pending" in o or "full " in o or "partial " in o or o.startswith("received=")),
-    out_kind=lambda o: ("stress" if o.startswith("received=") else "bad-case" if o == "bad-case" else
-                        "chan:" + "+".join(k for k in ("ready[", "pending", "none:", "senderror", "cancelled", "rxdropped", "dropped:") if k in o).replace("[", "").replace(":", "")
-                        if (":" in o.split(";")[0] and "=" not in o.split(";")[0]) else
-                        "slot:" + "+".join(k for k in ("full ", "partial ", "none ") if k in o).replace(" ", "")),
-    trusted=[
-        "Model/MergeChannel.lean transcribes merge_channel.rs:45-54, 102-129, 149-182 (one atomic step per shared-memory access, in the code's order); Model/MetaUpdate.lean transcribes update.rs:74-85, 89-191, 258-265 and metadata/mod.rs:349-370 (Metadata/peer list abstracted to a topology tag, reply channel to the refresh id, HashMaps to association lists)",
-        "tokio::sync::Notify (tokio 1.53.1 notify.rs) contract N1-N5: one stored permit; notify_one unlinks+marks the registered waiter (waking its waker if it stored one) else sets the permit; enable() consumes the permit or registers without waker; poll: Done/notified -> Ready, else store waker, Pending; dropping a Waiting future unlinks it and, if it was notified by notify_one but never polled, re-stores the permit; each of these is one atomic step",
-        "sequential consistency: every access to slot (std Mutex), sender_dropped / receiver_dropped (Release/Acquire AtomicBool) and Notify is one indivisible step of an interleaving",
-        "only a suspended recv() future can be dropped (never polled, or parked at line 173); Drop for Receiver needs no recv future alive (the &mut borrow)",
-        "merge_client_routes_update / ClientRoutes::merge are modelled and covered by the theorems but have no pass-through, so they are not in the differential run",
-    ],
-    assumptions=[
-        "single producer, single consumer (both endpoints are !Clone and their methods take &mut self): at most one Notified waiter",
-        "the closure passed to modify does not panic and leaves the slot Some (true of the hook's push and of every MetadataUpdate::merge_*: merge_fills_slot); a closure leaving None is not modelled",
-        "no_lost_wakeup is a safety statement (notified and woken, or the notify is the producer's next step); that the runtime polls a woken task and that threads keep being scheduled is assumed",
-    ],
-    partial=[
-        "the differential run drives the channel at poll granularity only (it cannot preempt inside modify/recv); the finer interleavings are covered by the theorems under the Notify/SC assumptions and sampled by the 2-thread stress cases",
-        "end-to-end Session::refresh_metadata against a mock cluster (DESIGN X, thorough) is not part of this check",
-    ],
-    shrink=dict(head_words=1, sep=";"),
-)
-
-PROPS["C04"] = dict(
-    level_text="Theorems (Props/C04.lean) prove for every token ring sorted by token (duplicate tokens allowed), every node placement (datacenter, rack, rack-less and datacenter-less nodes, vnodes), every token, every replication factor (0 .. above the node count) and every set S of precomputed keyspace strategies: the driver's SimpleStrategy walk is the first RF distinct nodes clockwise (simple_eq_spec); its NTS iterator (replicas_left / used_racks / acceptable_repeats) computes the stated per-datacenter rack rule (nts_eq_spec) and yields exactly min(RF, nodes) replicas (nts_len); the prefix properties behind the precomputed lists (simple_prefix, nts_prefix up to the rack count) and the snap of a token to its ring member (ringRange_snap); the locator's answer (compressed list / per-RF list / global max-RF list with prefix lookup / on-the-fly fallback) equals the on-the-fly walk for every strategy whether or not it was precomputed (precomputed_eq_onthefly*); restricting to a datacenter equals filtering the unrestricted answer (dc_restrict_eq_filter_*); and for every replica set len = |iter|, choose(i) = iter[i], the ring-ordered view is a permutation of iter and a subsequence of the distinct nodes clockwise from the token (views_agree). The model is tied to routing/locator/*.rs and cluster/state.rs by a differential run through ClusterState::new (hook cluster_from_topology) with a brute-force oracle of the two placement rules.",
-    level_note="Trusted: Lean kernel + {propext, Classical.choice, Quot.sound}; hand-written models Model/Ring.lean, Model/Replicas.lean (tie = differential harness: exhaustive small universe + random topologies, every view of ReplicaSet, get_token_endpoints). Agreement with the servers' placement is by the rule in the property statement (specSimple / specNtsDc). Tablets are C15. Shards of the returned (node, shard) pairs are not compared (pool-less nodes: C11/C12).",
-    lean_modules=["ScyllaVerif.Props.C04"],
-    rule="case = (topology, precomputed keyspace strategies, queried strategy, datacenter restriction, token); distinct case lines whose replica set is non-empty count as non-trivial",
-    trivial=lambda c, o: o.startswith("len=0 ") or o in ("bad-case", "PANIC"),
-    out_kind=lambda o: "bad-case" if not o.startswith("len=") else (lambda f: ("len=%s" % (f[0][4:] if int(f[0][4:]) < 5 else "5+")) + (" ord!=iter" if f[1][5:] != f[3][4:] else ""))(o.split(" ")),
-    trusted=[
-        "Model/Ring.lean transcribes token_ring.rs:15-60 (partition_point on a sorted slice = index of the first token >= tok), itertools unique (first occurrence wins), Token::new; Model/Replicas.lean transcribes replication_info.rs:62-202, precomputed_replicas.rs:80-210, locator/mod.rs:62-271, 314-434, 436-589, 694-935 (ReplicaSetIterator::nth / size_hint are not modelled: nth is checked by the harness oracle against the iteration), cluster/state.rs:504-530",
-        "HashMap<String, usize> of NTS = association list with distinct keys; HashMap/BTreeSet/HashSet iteration orders are irrelevant where the code uses them (sums, maxima, set membership) - datacenter and rack names are abstracted to numbers (only compared for equality)",
-        "std: stable sort_by_key, slice::partition_point on a partitioned slice; rand 0.9 random_range(0..len) = (u32 * len) >> 32 (the harness scripts the RNG to sweep every index); node identity = host_id",
-    ],
-    assumptions=[
-        "the ring is sorted by token (established by TokenRing::new: ring_sorted); NTS datacenter keys are distinct (a HashMap); no other hypothesis - in particular none about duplicate tokens since the repair ad6cb90",
-    ],
-    partial=[
-        "ReplicaSetIterator::nth and size_hint, choose_filtered's fallback through IteratorRandom::choose, and the (node, shard) pairing are outside the model; the harness oracle checks nth(k) = k-th iterated replica and that choose_filtered respects its predicate",
-    ],
-    chunk=3000,
-    shrink=dict(head_words=1, sep=";"),
-)
-
-
-def _c07_out_kind(o):
-    if not o.startswith("rows="):
-        return o.split(" ", 1)[0]
-    w = o.split(" ")
-    rows = 0 if w[0] == "rows=-" else w[0].count(",") + 1
-    fin = w[1][4:]
-    reqs = 0 if w[2] == "log=-" else w[2].count(",") + 1
-    rb = "0" if rows == 0 else "1-6" if rows <= 6 else "7-50" if rows <= 50 else "51-200"
-    qb = "1" if reqs == 1 else "2-4" if reqs <= 4 else "5-20" if reqs <= 20 else "21+"
-    return "fin=%s rows=%s requests=%s" % (fin, rb, qb)
-
-
-PROPS["C07"] = dict(
-    level_text="Theorems (Props/C07.lean; invariants in Proofs/Pager.lean) about a transition system of the pager - producer loop with its program counter, capacity-1 channel, consumer with current page and row cursor, first page fetched on the caller's task - prove for EVERY server script (any page sizes incl. empty pages and an empty last page, any paging-state bytes), EVERY sequence of per-attempt outcomes (success, retried failure, final failure, ignored error) and EVERY interleaving of producer steps, polls and the drop of the pager: rows_exact_prefix / rows_exact (the rows handed out are always a prefix of the pages' rows in server order; if the stream ended with None without an error and no IgnoreWriteError decision was taken it handed out all of them - accounting invariant delivered ++ current page ++ channel ++ page held by send ++ pages not yet fetched ++ pages given up = all rows); paging_state_chain / paging_requests_in_order (every request for page k, first attempt or retry, before or after a drop, carries the state returned with page k-1, none for k=0; requests are in page order); error_after_earlier_rows / first_page_error / error_at_most_once / nothing_after_end_or_error (a non-retried failure on page k surfaces once, after exactly the rows of pages < k, then the stream ends; a first-page failure is the constructor's error); terminates_poll / bounded_work / no_deadlock_reachable / terminates / eager_consumer_gets_everything (no pending page and producer done -> None; a measure strictly decreases on every effective step; no deadlock; under round-robin scheduling the stream ends within measure(init) rounds); prefetch_bound / early_drop_stops_producer (at most 2 pages prefetched; after a drop nothing is delivered or enqueued and only the page request in flight is finished); conn_rows_exact (the single-connection pager needs no side condition); ignore_truncates_silently (an IgnoreWriteError decision ends the stream without error - why rows_exact excludes it). The model is tied to pager.rs by a differential run of the REAL pagers against a scripted CQL server over loopback TCP: Connection::execute_iter (SingleConnectionPagingExecutor) and Session::execute_iter (PagingExecutor, default retry policy, one-node mock cluster), with an oracle computed from the script and the frames the server received.",
-    level_note="Trusted: Lean kernel + {propext, Classical.choice, Quot.sound}; hand-written model Model/Pager.lean (tie = differential harness: real QueryPager/TypedRowStream over a real Connection / Session against harness/src/mocknode.rs on a current-thread tokio runtime); tokio mpsc(1) semantics (one buffered item, send waits, receiver drop fails send and discards the buffer, sender drop lets the receiver drain then see None) and task scheduling are represented by arbitrary interleaving of atomic steps - real wake-ups are exercised only by the differential run; the retry policy is represented by per-attempt outcomes (C06 owns its model); drop cases are checked as membership (request log between the laziest and the most eager producer). Only prepared statements are driven (Session::query_iter's unprepared pager shares PagingExecutor::query_remaining_pages but its page_query closure is not exercised); node switches need a multi-node mock cluster and are not in the differential run (the chain theorem covers them: the state does not depend on the target).",
-    lean_modules=["ScyllaVerif.Props.C07"],
-    rule="case = (pager kind pg|sess, skip-metadata flag, consumer eager|slow|drop after k rows, page script: rows per page, paging state returned, faults injected before the page is served); distinct case lines whose implementation output shows at least two page requests count as non-trivial",
-    trivial=lambda c, o: "," not in o.split("log=")[-1],
-    out_kind=_c07_out_kind,
-    trusted=[
-        "Model/Pager.lean transcribes pager.rs:199-253 (query_remaining_pages), 257-296 + 372-459 (first page), 461-496 (process_next_page), 550-684 (SingleConnectionPagingExecutor: fetch_one_page, page_from_outcome, fetch_remaining_pages), 718-791 (QueryPager::next, poll_fill_page, poll_next_page), 1089-1163 (new_for_connection_execute_iter), 872-915/1015-1083 (channel creation, worker spawn); one atomic step per producer await point (one fetch attempt, one send) and per consumer poll; the producer's return and the drop of its Sender are one step with its last send",
-        "connAttempts / sessAttempts (Model/Pager.lean) map the harness's server faults to attempt outcomes: connection.rs:1046-1145 (one transparent re-execute after UNPREPARED), FallthroughRetryPolicy for the single-connection pager; DefaultRetryPolicy on a one-node plan for the session pager (digest-only ReadTimeout retried once per page on the same target, everything else final because RetryNextTarget exhausts the plan); a non-Rows first response of the session pager = empty stream (pager.rs:436-454)",
-        "tokio::sync::mpsc::channel(1): FIFO of capacity 1, send suspends when full, Receiver drop closes the channel (pending and later sends fail, buffered items are discarded), Sender drop lets the receiver drain the buffer and then return None; tokio::spawn runs the producer concurrently with the consumer (any interleaving)",
-        "harness/src/mocknode.rs: scripted CQL v4 server (independent frame codec); pages are served by position, the paging state presented with every EXECUTE is recorded; the session family answers the control connection's system.peers / system.local queries itself (schema fetch disabled)",
-        "ghost fields of the model state (taken, lost, ignored) are written but never read by the transitions",
-    ],
-    assumptions=[
-        "rows_exact: no attempt is answered with IgnoreWriteError (hypothesis `Attempt.ignore not in faults`; proved unnecessary for the single-connection pager: conn_rows_exact). For the session pagers an IgnoreWriteError decision on a page request ends the stream silently (pager.rs:220-226) - theorem ignore_truncates_silently; reachable only with a retry policy that ignores write errors and a server answering a read with a write error",
-        "the server answers the k-th successful fetch with the k-th scripted page (a deterministic function of the request number; the chain theorem shows the presented state is the one of page k-1, so a server keyed by state sees the same thing when states are distinct)",
-        "termination theorem: producer and consumer are scheduled in turn (round robin); for other fair schedules bounded_work + no_deadlock_reachable are the general statements",
-        "rows are well-formed and of the prepared statement's column type (per-page type check / row deserialization errors of TypedRowStream are not modelled)",
-    ],
-    partial=[
-        "unprepared session pager (Session::query_iter) and the control connection's own use of the pager are not driven separately (same PagingExecutor / SingleConnectionPagingExecutor code; the control connection's queries do run through the single-connection pager when the mock cluster session is built)",
-        "node switch between pages / retry on the next node (coordinator stability, pager.rs:337-365) needs a multi-node mock cluster: not in the differential run; speculative execution inside a page fetch is C13",
-        "client-side request timeout is exercised with real time on a few cases only (8+3 quick, 48+16 thorough)",
-        "metadata-id change between pages (SCYLLA_USE_METADATA_ID) and per-page type-check failures are not scripted",
-    ],
-    shrink=dict(head_words=3, sep=" "),
-    chunk=900,
-)
+for _f in sorted(_glob.glob(_os.path.join(_os.path.dirname(_os.path.abspath(__file__)), "props.d", "C*.py"))):
+    with open(_f) as _fh:
+        exec(compile(_fh.read(), _f, "exec"))
